@@ -458,7 +458,18 @@ class StreamResponse(
         if self._payload_writer is None:
             raise RuntimeError("Cannot call write() before prepare()")
 
+        if self._must_be_empty_body and not self._is_connect_tunnel():
+            # HEAD, 1xx, 204, 304: no content may follow the headers. Drop
+            # what the handler streams instead of writing unframed bytes that
+            # the peer would read as the start of the next response.
+            return
+
         await self._payload_writer.write(data)
+
+    def _is_connect_tunnel(self) -> bool:
+        # What follows a 2xx answer to CONNECT is tunnelled data, not content.
+        req = self._req
+        return req is not None and req.method == hdrs.METH_CONNECT
 
     async def drain(self) -> None:
         assert not self._eof_sent, "EOF has already been sent"
@@ -480,6 +491,8 @@ class StreamResponse(
 
         assert self._payload_writer is not None, "Response has not been started"
 
+        if self._must_be_empty_body and not self._is_connect_tunnel():
+            data = b""
         await self._payload_writer.write_eof(data)
         self._eof_sent = True
         self._req = None
